@@ -855,7 +855,9 @@ func (w *World) smartQuery(op Op) QuerySpec {
 	var pool []QuerySpec
 	for _, q := range w.Catalog {
 		if q.Kind == "deposit" {
-			pool = append(pool, q)
+			if op.S != "nodep" { // profiles that need fast rounds can keep the 2000-block deposit rounds out of the pool
+				pool = append(pool, q)
+			}
 			continue
 		}
 		if q.Kind == "withdraw" || q.Kind == "garbage" {
